@@ -102,6 +102,13 @@ func inState(x sdk.Int) sdk.Int {
 	return x
 }
 
+// resetGlobals puts the package's mode switches back to their initial values. The engine starts every path from
+// the package's initial state; natively many replays run in one process, and a switch left on by one harness
+// (priceDenom by the exchange scene, hugeMode by the huge-amount scenes) would change what the next one builds.
+func resetGlobals() {
+	focus, callHuge, noMinAssumed, hugeMode, priceDenom = "", false, false, false, Denom
+}
+
 // priceDenom: the denomination in which the builders' bindings publish their price (scenes with a host
 // application that knows a second token set it; the deposit stays in the base denomination)
 var priceDenom = Denom
